@@ -1,5 +1,7 @@
 import ElkVerif.Proofs.Inspect
 import ElkVerif.Proofs.Symbol
+import ElkVerif.Proofs.ToInt
+import ElkVerif.Proofs.FloatInspect
 import ElkVerif.Model.Ranges
 import ElkVerif.Gen.Unicode
 /-!
@@ -12,7 +14,7 @@ import ElkVerif.Gen.Unicode
 `unicode.IsGraphic`, `L` is `unicode.IsLetter` — the theorems hold for *every* such function.
 -/
 namespace Elk.C19
-open Elk.Inspect Elk.Utf8
+open Elk.Inspect Elk.Utf8 Elk.FloatInspect
 
 /-- **Strings.** For every byte string — valid UTF-8, invalid bytes, control and non-graphic
 characters, astral code points — and whatever the Unicode classification is, the lexer reads the
@@ -61,6 +63,69 @@ theorem ofDigits_snoc (base : Nat) (ds : List Nat) (d : Nat) :
 
 example : readIntLit (litPrefix 16 ++ (digitByte 15 :: litBody [(true, 15), (false, 0)])) = some 0xFF0 :=
   literal_value 16 (by simp [LitBase]) 15 [(true, 15), (false, 0)] (by omega) (by simp)
+
+/-- **`String#to_int(base)`**, explicit base 2…36: optional sign, digits in either case and `_`
+anywhere; the result is exactly the positional value of the digits (`TChar` = `_` | digit). -/
+theorem to_int_value (base : Nat) (h2 : 2 ≤ base) (h36 : base ≤ 36) (xs : List TChar) (hne : xs ≠ [])
+    (hok : ∀ x ∈ xs, x.ok base) :
+    parseBigInt (xs.map TChar.byte) base = .ok (ofDigits base 0 (xs.filterMap TChar.val?) : Int) ∧
+    parseBigInt (0x2D :: xs.map TChar.byte) base = .ok (-(ofDigits base 0 (xs.filterMap TChar.val?) : Int)) ∧
+    parseBigInt (0x2B :: xs.map TChar.byte) base = .ok (ofDigits base 0 (xs.filterMap TChar.val?) : Int) :=
+  parseBigInt_explicit base h2 h36 xs hne hok
+
+/-- `String#to_int` with base inference from a `0x 0d 0o 0q 0b` prefix -/
+theorem to_int_prefixed (base : Nat) (hb : LitBase base) (h10 : base ≠ 10) (xs : List TChar) (hne : xs ≠ [])
+    (hok : ∀ x ∈ xs, x.ok base) :
+    parseBigInt (litPrefix base ++ xs.map TChar.byte) 0 = .ok (ofDigits base 0 (xs.filterMap TChar.val?) : Int) :=
+  parseBigInt_prefixed base hb h10 xs hne hok
+
+example : parseBigInt ([TChar.up 35, .us, .lo 35].map TChar.byte) 36 = .ok (35 * 36 + 35 : Int) :=
+  (to_int_value 36 (by omega) (by omega) _ (by simp) (by simp [TChar.ok])).1
+
+/-! ### Floats (strconv is a parameter; its contract is a hypothesis) -/
+
+/-- **Floats (finite).** `inspect` of a `Float`/`Float64`/`Float32` is read back (unary minus, one
+float literal of the right kind, `strconv.ParseFloat` on its lexeme) as the same value — under
+strconv's contract for that value (`StrconvContract`: the printed shape and the shortest
+round trip), which is a hypothesis here and is exercised on generated bit patterns by the check. -/
+theorem float_roundtrip {F : Type} (S : Strconv F) (k : Kind) (x : F)
+    (hn : S.isNaN x = false) (hp : S.isPosInf x = false) (hm : S.isNegInf x = false)
+    (hc : StrconvContract S k x) :
+    readFinite S k (inspectFloat S k x) = some x :=
+  readFinite_inspectFloat S k x hn hp hm hc
+
+/-- the lexer side of it, without any assumption on strconv: every text of the shape
+`digits[.digits][e[+-]digits][f64|f32]` is one number token whose lexeme is the text without suffix -/
+theorem float_text_lexes (i0 : Nat) (I : List Nat) (h0 : i0 < 10) (hI : ∀ d ∈ I, d < 10)
+    (Fr : Option (Nat × List Nat)) (hF : fracOk Fr) (E : Option (Option Bool × Nat × List Nat)) (hE : expOk E)
+    (suf : Bytes) (hsuf : IsSuffix suf) :
+    lexNumber (digs (i0 :: I) ++ (fracBytes Fr ++ (expBytes E ++ suf))) =
+      some (tokFor Fr E suf, digs (i0 :: I) ++ fracBytes Fr ++ expBytes E) :=
+  lexNumber_render i0 I h0 hI Fr hF E hE suf hsuf
+
+/-- non-finite values print the constants of their class (declared in the headers since `3ae0e77`) -/
+theorem float_nonfinite {F : Type} (S : Strconv F) (k : Kind) (x : F) :
+    (S.isNaN x = true → inspectFloat S k x = className k ++ "::NAN".toUTF8.toList) ∧
+    (S.isNaN x = false → S.isPosInf x = true → inspectFloat S k x = className k ++ "::INF".toUTF8.toList) ∧
+    (S.isNaN x = false → S.isPosInf x = false → S.isNegInf x = true →
+      inspectFloat S k x = className k ++ "::NEG_INF".toUTF8.toList) := by
+  refine ⟨fun h => by simp [inspectFloat, h], fun h1 h2 => by simp [inspectFloat, h1, h2],
+    fun h1 h2 h3 => by simp [inspectFloat, h1, h2, h3]⟩
+
+/-- non-vacuity: a toy `Strconv` whose only value prints as `1.5` satisfies the contract -/
+def toyStrconv : Strconv Unit where
+  isNaN := fun _ => false
+  isPosInf := fun _ => false
+  isNegInf := fun _ => false
+  isInt := fun _ => false
+  fmtG := fun _ => [0x31, 0x2E, 0x35]
+  fmtF1 := fun _ => [0x31, 0x2E, 0x35]
+  parse := fun _ => some ()
+  neg := fun _ => ()
+
+example : StrconvContract toyStrconv .float64 () :=
+  ⟨false, 1, [], some (5, []), none, (), by omega, by simp, by simp [fracOk], by simp [expOk],
+    by simp [finiteText, toyStrconv, digs, fracBytes, expBytes, digitByte, byte], by simp, rfl, rfl⟩
 
 /-! ### Symbols -/
 
